@@ -499,6 +499,21 @@ class C14(Prop):
     n = 420 if tier == "quick" else 6000
     for i in range(n):
       yield self.gen_case(rng)
+    # constrained multi-choices with many conflicting parents: the retry and last-resort paths of
+    # `_merge_multi_choice` (about one case in eight exhausts the 8 attempts)
+    for i in range(90 if tier == 'quick' else 900):
+      r = rng.fork()
+      ncand = r.randint(4, 6)
+      k = r.randint(3, min(4, ncand))
+      distinct, srt = r.choice([(True, True), (True, True), (True, False), (False, True)])
+      multi = ['choices', k, [_C0] * ncand, distinct, srt]
+      spec = ['space', [multi] + ([gen_point(r, 0)] if r.chance(0.3) else [])]
+      if r.chance(0.25):
+        spec = ['space', [['choices', 1, [['space', [multi]], _C0], True, False]]]
+      pop = [{'nums': gen_dna(r, spec), 'fit': r.randint(-3, 6)} for _ in range(r.randint(4, 7))]
+      e = r.choice([['prim', 'recUniform'], ['prim', 'recSample'],
+                    ['repeat', ['prim', 'recUniform'], 2], ['seq', ['prim', 'recSample'], ['prim', 'mutUniform']]])
+      yield {'spec': spec, 'pop': pop, 'expr': e, 'seed': r.below(1 << 30)}
     # every modelled primitive alone on a small fixed family
     for spec in FIXED_SPECS:
       for prim in FIXED_PRIMS:
@@ -795,6 +810,34 @@ class C14(Prop):
       return res
 
     base.Operation.__call__ = spy
+    from pyglove.ext.evolution import recombinators as _rec
+    orig_mm = _rec._merge_multi_choice            # pylint: disable=protected-access
+    mm_paths = []
+
+    def mm_spy(decision_point, parent_decisions, weights, rand, max_rearrange_attempts=8):
+      # which path of `_merge_multi_choice` is taken: every subchoice accepted at once ('direct'),
+      # after rejected draws ('retry'), or the last resort after 8 rejected draws ('fallback')
+      draws = []
+
+      class Proxy:
+        def choices(self, population, weights=None, *, cum_weights=None, k=1):    # pylint: disable=redefined-outer-name
+          r = rand.choices(population, weights=weights, cum_weights=cum_weights, k=k)
+          draws.append(r[0])
+          return r
+      res = orig_mm(decision_point, parent_decisions, weights, Proxy(), max_rearrange_attempts)
+      index, attempts, results = 0, 0, []
+      for d in draws:
+        if index == decision_point.num_choices or attempts >= max_rearrange_attempts:
+          break
+        if ((not decision_point.distinct or d not in results)
+            and (not decision_point.sorted or not results or d >= results[-1])):
+          results.append(d)
+          index += 1
+        else:
+          attempts += 1
+      mm_paths.append('fallback' if attempts >= max_rearrange_attempts else 'retry' if attempts else 'direct')
+      return res
+    _rec._merge_multi_choice = mm_spy             # pylint: disable=protected-access
     try:
       try:
         out = op(pop_arg)
@@ -802,8 +845,9 @@ class C14(Prop):
         err = type(ex).__name__
     finally:
       base.Operation.__call__ = orig_call
+      _rec._merge_multi_choice = orig_mm          # pylint: disable=protected-access
     return {'spec': spec, 'pop': pop, 'pop_arg': pop_arg, 'before': before, 'ids': ids, 'log': log,
-            'calls': calls, 'out': out, 'err': err, 'unseeded': unseeded}
+            'calls': calls, 'out': out, 'err': err, 'unseeded': unseeded, 'mm_paths': mm_paths}
 
   def canon_out(self, run):
     if run['err'] is not None:
@@ -965,7 +1009,8 @@ class C14(Prop):
                 'differ: %s vs %s' % (json.dumps(model)[:300], json.dumps(model2)[:300]))
     has_oo = any(p not in MODEL_PRIMS for p in prims)
     return {'model': None if has_oo else model, 'obs': model, 'oracle': run['log'], 'checks': checks,
-            'tainted': tainted, 'n_calls': len(run['calls']), 'n_draws': len(run['log'])}
+            'tainted': tainted, 'n_calls': len(run['calls']), 'n_draws': len(run['log']),
+            'mm_paths': run['mm_paths']}
 
   @staticmethod
   def bad_cuts(op, spec_json):
@@ -1140,6 +1185,8 @@ class C14(Prop):
       h.append('out:%s' % (n if n < 6 else '6+'))
       if any(o.get('id', [''])[0] == 'new' for o in obs['out']):
         h.append('new-dna')
+    for pth in sorted(set(out.get('mm_paths', []))):
+      h.append('merge_multi_choice:' + pth)
     h.append('draws:%s' % ('0' if out['n_draws'] == 0 else '1-5' if out['n_draws'] <= 5 else '6+'))
     if not self.nontrivial(case, out):
       h.append('trivial')
